@@ -271,6 +271,16 @@ def run(pid, tier, seed, rundir, model_run):
             flags.append("--delete")
         for _ in range(rng.pick([0, 0, 1, 2])):
             e = rng.pick(EXCL); excl.append(e); flags += ["--exclude", e]
+            if rng.coin(1, 2) and "/" not in e and "?" not in e:
+                # next to a file the pattern excludes by name, files whose names merely EXTEND that name (they sort right
+                # after it and are not excluded): app.log / app.log.1 / app.log.d/part
+                lit = e.replace("*", "k")
+                d_ = rng.pick(["", "d/e", "sp dir"])
+                pre = (d_ + "/" if d_ else "") + lit
+                if not any(k == pre or k.startswith(pre + "/") or pre.startswith(k + "/") or k.startswith(pre + ".d/") for k in src):
+                    mt_ = 1_600_000_000 + rng.below(1000)
+                    src[pre] = (b"excluded by name\n", mt_, 0); src[pre + ".1"] = (b"extends the name\n", mt_, 0); src[pre + ".d/part"] = (b"below an extending dir\n", mt_, 0)
+                    count("exclude/name-extension-siblings")
         jobs = rng.pick([1, 2, 4, 8])
         flags += ["--jobs", str(jobs)]
         if rng.coin(1, 4):
